@@ -28,6 +28,8 @@ CLAIMED = {
          "The C07 generator with NAT hops in outgoing routes (none, connector side, acceptor side, both, several nodes behind one external address) plus UDP datagram exchanges. Oracle: receiver-visible source is the NAT external address with the sender's port in all three places the statement names, the real address without NAT; sender's local endpoint, payload and per-flow order unchanged; and every completion happens at the same virtual time, with the same result, as in a control run of the same plan with each NAT replaced by a synchronous pass-through hop.", "3.13"),
  "C08": ("udp", "exploration", "deterministic simulation: seeded datagram histories with rebinding sockets, attribution by keyed bodies, loss accounting from probes",
          "Seeded search over datagram sizes 0..70000 and 1-3 buffer layouts on both sides (receive buffers from 8 bytes up, truncating), send timings and same-instant bursts up to 400, send-buffer sizes, sets of 2-5 sockets binding / closing / re-binding 3 contended ports over time on 2-4 nodes (multi-homed, NAT), three receive styles and draining readers, routes with latency, bandwidth and finite tail-dropping queues. Every receive is attributed to exactly one send; destination incarnation, sender endpoint, per-flow order, send_to error codes and would_block are checked; at the end all sockets are drained and every undelivered datagram must have a stated reason established from probe logs and a shadow account of unread bytes.", "3.8"),
+ "C11": ("registry", "exploration", "deterministic simulation: seeded bind/close/move histories vs a reference registry, with behavioural probes",
+         "Seeded search over sequences of open / bind (explicit, second address, wildcard, port 0, privileged, foreign, wrong family, a currently held endpoint) / listen / connect with implicit bind / close / re-open / move / destroy / accept and close of accepted sockets over TCP sockets, acceptors and UDP sockets on single-, dual-homed, dual-stack and IPv6-only nodes; the guarded knob moves the ephemeral counter next to its wrap in 40 % of runs. After every step the error code must be in the set the statement allows, the resolved endpoint and local_endpoint must match a reference registry, and probe connects / datagrams to every endpoint ever bound must reach exactly the registry's current holder.", "3.11"),
 }
 
 NOT_YET = "not claimed yet: the engine for this property is still under construction in this tree"
